@@ -122,8 +122,10 @@ fn observe(
     y: &[f64],
     n_train: usize,
     n_all: usize,
+    y_slack: i64,
     tree_pred: &dyn Fn(&Value) -> Result<Vec<f64>, String>,
     pred: Result<Vec<f64>, String>,
+    pred_again: Result<Vec<f64>, String>,
     oob: Result<Result<Vec<f64>, String>, String>,
 ) -> Observed {
     let trees: Vec<Value> = match dump.get("trees").and_then(|t| t.as_array()) {
@@ -175,6 +177,13 @@ fn observe(
         }
         Err(m) => (false, vec![], m.as_bytes().to_vec()),
     };
+    // the same forest asked a second time: digest of the exact bit patterns of both answers
+    let pred_again_bits = match &pred_again {
+        Ok(v) => bits_of(v),
+        Err(m) => m.as_bytes().to_vec(),
+    };
+    let pd1 = digest_of(&[&pred_bits]);
+    let pd2 = digest_of(&[&pred_again_bits]);
     let (oob_status, oobq, oob_fin, oob_bits) = match &oob {
         Ok(Ok(v)) => {
             let (_, q, f) = proj_vec(kind, v);
@@ -194,10 +203,10 @@ fn observe(
     let fdigest = digest_of(&[body.as_bytes(), &tp_bits, &pred_bits, oob_status.as_bytes(), &oob_bits]);
     let obs = json!({
         "kind": kind, "nTrees": n_trees_param, "trees": trees.len(),
-        "nTrain": n_train, "nAll": n_all, "y": yq,
+        "nTrain": n_train, "nAll": n_all, "y": yq, "ySlack": y_slack,
         "keep": keep, "hasMask": has_mask, "mask": mask,
         "tpOk": tp_ok, "treePred": tp,
-        "predOk": pred_ok, "pred": predq,
+        "predOk": pred_ok, "pred": predq, "predDigest": pd1, "predDigest2": pd2,
         "oobStatus": oob_status, "oobFin": oob_fin, "oob": oobq,
     });
     Observed { obs, digest, fdigest }
@@ -244,8 +253,9 @@ fn observe_cls(
         res_vec(guard(|| tree.predict(&xa)))
     };
     let pred = res_vec(guard(|| f.predict(&xa)));
+    let pred_again = res_vec(guard(|| f.predict(&xa)));
     let oob = res_oob(guard(|| f.predict_oob(&xt)));
-    observe("cls", &dump, &text, n_trees, keep, y, xtr.len(), xall.len(), &tree_pred, pred, oob)
+    observe("cls", &dump, &text, n_trees, keep, y, xtr.len(), xall.len(), 0, &tree_pred, pred, pred_again, oob)
 }
 
 fn observe_reg(
@@ -271,8 +281,11 @@ fn observe_reg(
         res_vec(guard(|| tree.predict(&xa)))
     };
     let pred = res_vec(guard(|| f.predict(&xa)));
+    let pred_again = res_vec(guard(|| f.predict(&xa)));
     let oob = res_oob(guard(|| f.predict_oob(&xt)));
-    observe("reg", &dump, &text, n_trees, keep, y, xtr.len(), xall.len(), &tree_pred, pred, oob)
+    // targets that are multiples of 2^-16 are recorded exactly; anything else is rounded
+    let y_slack = if y.iter().all(|v| (v * FX).fract() == 0.0) { 0 } else { 1 };
+    observe("reg", &dump, &text, n_trees, keep, y, xtr.len(), xall.len(), y_slack, &tree_pred, pred, pred_again, oob)
 }
 
 // ---------------------------------------------------------------------------------------------
@@ -292,6 +305,9 @@ struct Setting {
 
 struct Data {
     id: usize,
+    /// features are numerators over `xden` (1: integers, 16: sixteenths), so that they can
+    /// be recorded exactly
+    xden: i64,
     x: Vec<Vec<f64>>,
     xq: Vec<Vec<f64>>,
     y: Vec<f64>,
@@ -365,8 +381,9 @@ fn base_key(d: &Data, s: &Setting) -> String {
     )
 }
 
-fn ints(rows: &[Vec<f64>]) -> Vec<Vec<i64>> {
-    match intm(rows) {
+fn ints(rows: &[Vec<f64>], den: i64) -> Vec<Vec<i64>> {
+    let scaled: Vec<Vec<f64>> = rows.iter().map(|r| r.iter().map(|v| v * den as f64).collect()).collect();
+    match intm(&scaled) {
         Some(m) => m,
         None => {
             eprintln!("generator produced a non-integer feature");
@@ -383,8 +400,9 @@ fn emit_fit(out: &mut Out, run: i64, full: bool, d: &Data, s: &Setting, seed: u6
         let p = d.x[0].len();
         out.emit(json!({
             "run": run, "ev": "ForestFit", "key": key, "base": base, "digest": digest, "fdigest": fdigest, "status": status,
-            "in": {"kind": s.kind, "n": d.x.len(), "p": p, "X": ints(&d.x), "Xq": ints(&d.xq),
+            "in": {"kind": s.kind, "n": d.x.len(), "p": p, "xDen": d.xden, "X": ints(&d.x, d.xden), "Xq": ints(&d.xq, d.xden),
                    "y": proj_vec(s.kind, &d.y).1,
+                   "yHex": d.y.iter().map(|v| format!("{:016x}", v.to_bits())).collect::<Vec<String>>(),
                    "nTrees": s.n_trees, "m": s.m.map(|v| v as i64).unwrap_or(-1),
                    "maxDepth": s.max_depth.map(|v| v as i64).unwrap_or(-1),
                    "msl": s.msl, "mss": s.mss, "crit": s.crit, "keep": s.keep,
@@ -437,6 +455,15 @@ fn gen_data(r: &mut StdRng, id: usize, kind: &'static str, n: usize, p: usize, d
         }
         xq.push(row);
     }
+    // a quarter of the data sets have non-integer features: everything divided by 16 (exact)
+    let xden: i64 = if r.gen_bool(0.25) { 16 } else { 1 };
+    if xden != 1 {
+        for row in x.iter_mut().chain(xq.iter_mut()) {
+            for v in row.iter_mut() {
+                *v /= xden as f64;
+            }
+        }
+    }
     let signal: Vec<f64> = (0..n)
         .map(|i| x[i][0] + if p > 1 { x[i][p - 1] } else { 0.0 })
         .collect();
@@ -469,7 +496,9 @@ fn gen_data(r: &mut StdRng, id: usize, kind: &'static str, n: usize, p: usize, d
             y[rows[c]] = labels[c];
         }
     } else {
-        let eighth = r.gen_bool(0.5);
+        // targets: integers, multiples of 1/8, or arbitrary reals
+        let fam = r.gen_range(0..3);
+        let eighth = fam == 1;
         let smax = signal.iter().fold(1.0f64, |a, &b| a.max(b.abs()));
         for i in 0..n {
             let noise = r.gen_range(-6..=6) as f64;
@@ -477,7 +506,28 @@ fn gen_data(r: &mut StdRng, id: usize, kind: &'static str, n: usize, p: usize, d
             if eighth {
                 v += r.gen_range(0..8) as f64 / 8.0;
             }
-            y[i] = v.max(-200.0).min(200.0);
+            if fam == 2 {
+                v += r.gen_range(-0.5f64..0.5f64);
+            }
+            y[i] = v;
+        }
+        // half of the target vectors are narrow and far from zero (a mean computed with a
+        // wrong weight or divisor then leaves the range of the targets)
+        if r.gen_bool(0.5) {
+            let shrink = [1.0, 2.0, 4.0, 16.0][r.gen_range(0..4)];
+            let centre = r.gen_range(-170..=170) as f64;
+            for v in y.iter_mut() {
+                *v = *v / shrink + centre;
+                if fam != 2 {
+                    *v = (*v * 8.0).round() / 8.0;
+                }
+                if fam == 0 {
+                    *v = v.round();
+                }
+            }
+        }
+        for v in y.iter_mut() {
+            *v = v.max(-200.0).min(200.0);
         }
         if r.gen_bool(0.1) {
             let c = y[0];
@@ -486,7 +536,7 @@ fn gen_data(r: &mut StdRng, id: usize, kind: &'static str, n: usize, p: usize, d
             }
         }
     }
-    Data { id, x, xq, y }
+    Data { id, xden, x, xq, y }
 }
 
 fn gen_setting(r: &mut StdRng, kind: &'static str, p: usize, unlimited: bool, big: bool) -> Setting {
@@ -537,7 +587,7 @@ fn gen_fits(path: &str) {
     let mut out = Out::create(path);
     let mut r = rng(6);
     let th = thorough();
-    let cases = if th { 10000 } else { 2000 };
+    let cases = if th { 10000 } else { 3000 };
     let mut run = 0i64;
     let mut early: Vec<(Data, Setting, u64)> = Vec::new();
     for c in 0..cases {
@@ -696,16 +746,25 @@ fn replay_file(inp: &str, outp: &str) {
                 run += 1;
                 let i = &e["in"];
                 let kind: &'static str = if i["kind"] == "cls" { "cls" } else { "reg" };
+                let xden = i["xDen"].as_i64().unwrap_or(1);
                 let rows = |v: &Value| -> Vec<Vec<f64>> {
                     v.as_array()
-                        .map(|a| a.iter().map(|r| arr_i64(r).iter().map(|&x| x as f64).collect()).collect())
+                        .map(|a| {
+                            a.iter()
+                                .map(|r| arr_i64(r).iter().map(|&x| x as f64 / xden as f64).collect())
+                                .collect()
+                        })
                         .unwrap_or_default()
                 };
-                let y: Vec<f64> = arr_i64(&i["y"])
-                    .iter()
-                    .map(|&v| if kind == "cls" { v as f64 } else { v as f64 / FX })
-                    .collect();
-                let d = Data { id: run as usize, x: rows(&i["X"]), xq: rows(&i["Xq"]), y };
+                let y: Vec<f64> = i["yHex"]
+                    .as_array()
+                    .map(|a| {
+                        a.iter()
+                            .map(|h| f64::from_bits(u64::from_str_radix(h.as_str().unwrap_or("0"), 16).unwrap_or(0)))
+                            .collect()
+                    })
+                    .unwrap_or_default();
+                let d = Data { id: run as usize, xden, x: rows(&i["X"]), xq: rows(&i["Xq"]), y };
                 let opt = |v: &Value| -> Option<i64> { v.as_i64().filter(|&x| x >= 0) };
                 let s = Setting {
                     kind,
